@@ -47,6 +47,7 @@ def main(argv=None):
     os.makedirs(replay_dir, exist_ok=True)
 
     undecided: list[str] = []
+    notes: list[str] = []
     violations: list[dict] = []
     verus_results = []
     kani_result = None
@@ -94,8 +95,19 @@ def main(argv=None):
                 if kani_result is not None:
                     if kani_result.build_error:
                         undecided.append("kani: build/tool error: " + _first_error(kani_result.build_error))
+                    tag = getattr(unit.kani, "tag", None)
                     for h in hs:
                         hr = kani_result.harnesses[h.name]
+                        if tag and hr.status == "failed":
+                            # assertions are tagged with the property whose statement they express; a harness shared by
+                            # several properties raises an alarm only for the property its failed assertion belongs to
+                            mine = [c for c in hr.failed_checks if f"[{tag}]" in c["desc"] or not re.search(r"\[C\d\d\]", c["desc"])]
+                            if not mine:
+                                notes.append(f"kani[{h.name}]: only assertions of other properties failed ({'; '.join(c['desc'][:80] for c in hr.failed_checks[:3])})")
+                                hr.status = "success"
+                                hr.other_property_failures = True
+                            else:
+                                hr.failed_checks = mine
                         if hr.status == "undecided":
                             undecided.append(f"kani[{h.name}] undecided: {hr.undecided_reason}")
                         elif hr.status == "success" and hr.covers:
@@ -168,6 +180,7 @@ def main(argv=None):
 
     wall = time.time() - t0
     ev = _evidence(pid, tier, seed, unit, verus_results, kani_result, new_violations, undecided, wall)
+    ev["coverage"]["notes"] = notes
     with open(ev_path, "w") as f:
         json.dump(ev, f, indent=1)
     cov = ev["coverage"]
